@@ -27,6 +27,11 @@ ALIASES = {'np': 'numpy', 'xr': 'xarray', 'sp': 'scipy', 'ne': 'numexpr'}
 MAX_UNROLL = 24
 # attributes that expose the elements of an array
 CONTENT_ATTRS = frozenset(('values', 'data', 'T', 'real', 'imag'))
+# methods of an array whose result holds (a view or a function of) its elements
+CONTENT_METHODS = frozenset((
+    'transpose', 'assign_coords', 'astype', 'squeeze', 'ravel', 'flatten', 'reshape',
+    'isel', 'sel', 'sum', 'mean', 'std', 'max', 'min', 'any', 'all', 'rename',
+    'stack', 'unstack', 'conj', 'conjugate', 'swapaxes', 'tolist', 'item'))
 
 
 def norm_cmp(o, left, right):
@@ -1527,7 +1532,8 @@ class Interp:
                         ft[2] == f.attr:
                     ft = intern(('attr', full, f.attr))
                 elif full[0] in ('upd', 'mut') and full != ft[1] and \
-                        ft[2] == f.attr and f.attr in MUTATORS:
+                        ft[2] == f.attr and (f.attr in MUTATORS or
+                                             f.attr in CONTENT_METHODS):
                     # a mutating method acts on the container with the items
                     # stored so far (d['m'] = ...; d.pop('y') keeps 'm')
                     ft = intern(('attr', full, f.attr))
@@ -1544,6 +1550,7 @@ class Interp:
         k = ft[0]
         if k == 'funcref':
             qual = ft[1]
+            pos, kws, wb = self._bind_leading(qual, pos, kws, 0, wb)
             self.record_call(qual, pos, kws, frame, node, cond)
             if self._can_inline(qual, frame, pos, kws):
                 fd = self.prog.func(qual)
@@ -1555,6 +1562,7 @@ class Interp:
         if k == 'method':
             _, owner, name, selft = ft
             qual = owner + '.' + name
+            pos, kws, wb = self._bind_leading(qual, pos, kws, 1, wb)
             self.record_call(qual, [selft] + list(pos), kws, frame, node, cond)
             if self._can_inline(qual, frame, pos, kws):
                 fd = self.prog.classes[owner].methods[name]
@@ -1655,6 +1663,37 @@ class Interp:
         else:
             self.record_call('<term>', pos, kws, frame, node, cond)
         return ('call', ft, tuple(pos), tuple(sorted(kws.items())))
+
+    def _bind_leading(self, qual, pos, kws, skip, wb=None):
+        """f(a, y=b) and f(a, b) are one call: keyword arguments that name the
+        next positional parameters of a resolved callee are moved into their
+        slots, so call records and call terms have one canonical form."""
+        if not kws or '**' in kws or any(p[0] == 'star' for p in pos):
+            return pos, kws, wb
+        try:
+            fd = self.prog.func(qual)
+        except AnalysisError:
+            return pos, kws, wb
+        if not isinstance(fd, (ast.FunctionDef, ast.AsyncFunctionDef)) or \
+                fd.args.posonlyargs:
+            return pos, kws, wb
+        names = [a.arg for a in fd.args.args][skip:]
+        if skip and fd.decorator_list and any(
+                isinstance(d, ast.Name) and d.id == 'staticmethod'
+                for d in fd.decorator_list):
+            names = [a.arg for a in fd.args.args]
+        pos = list(pos)
+        kws = dict(kws)
+        pn = list(wb[1]) if wb else None
+        kn = dict(wb[2]) if wb else None
+        while len(pos) < len(names) and names[len(pos)] in kws:
+            nm = names[len(pos)]
+            pos.append(kws.pop(nm))
+            if wb:
+                pn.append(kn.pop(nm, None))
+        if wb:
+            wb = (wb[0], pn, kn)
+        return pos, kws, wb
 
     def _can_inline(self, qual, frame, pos, kws):
         if qual in self.opaque or qual in self.stack:
